@@ -22,13 +22,15 @@ EXPLANATION = (
     "of the rule-block loop and of the output-variable loop is interpreted abstractly under all 2^6 / 2^3 "
     "assignments of (operator needed, operator present); for each of conjunction, disjunction, implication, "
     "aggregation, defuzzifier some report site must execute exactly when that operator is needed and missing; "
-    "need counters are bound by the keyword (Rule.AND / Rule.OR) or defuzzifier class their increments consult"
+    "need counters are bound by the keyword (Rule.AND / Rule.OR) or defuzzifier class their increments consult; the operators that reach "
+    "the runtime tests are the block's own through the whole recursion over the antecedent (P9); every parser of rule text separates tokens "
+    "at any whitespace, as the ` and ` / ` or ` search of readiness in the space-normalised text presupposes (C1-tok)"
 )
 ASSUMPTIONS = [
     "rules written with whitespace-separated tokens (property precondition); rule blocks have an activation method",
     "readiness concerns the five operator kinds of the property; other causes of exceptions are outside its quantifier",
 ]
-FLOORS = {"C1": 5, "C1-raise": 5, "C1-acc": 1, "C1-deref": 6}
+FLOORS = {"C1": 5, "C1-raise": 5, "C1-acc": 1, "C1-deref": 6, "P9": 7, "C1-tok": 6}
 
 MARKERS = {
     "fuzzylite.rule.Rule.AND": "AND",
@@ -193,6 +195,12 @@ def run(check: Check) -> None:
     check.exhaustive_parts.append("is_ready report predicates: all assignments of (needed, present) per operator kind")
     runtime_sites(check)
     dereferences(check)
+    from . import c16, wiring
+
+    # the operators that reach the runtime "operator missing" tests are the block's own (a block that has the operator must not
+    # meet a None on the way down the antecedent), and every parser of the rule text separates tokens the way readiness assumes
+    wiring.p9_antecedent(check)
+    c16.tokenisers(check, rule="C1-tok")
 
 
 def runtime_sites(check: Check) -> None:
